@@ -235,7 +235,7 @@ def _mk(name, tiers):
     globals()[inside.__name__] = inside
 
     @condition(timeout={"thorough": 2400}, tiers=("thorough",), functions=scn.ENGINE_FUNCS,
-               bounds={"thorough": {"OPS": bops + 1}})
+               bounds={"quick": {"OPS": bops + 1}, "thorough": {"OPS": bops + 1}})   # (quick: only for replaying a recorded witness)
     def twice(k: int, k2: int, c0: int) -> str:
         """
         requires: 1 <= k <= @OPS@ and 1 <= k2 <= 6
